@@ -13,31 +13,31 @@ P = {
              text='Seeded generator over input form x 13 types x byte order x layout x rank x dtype argument x chunklen x fill, each creation re-done under further chunk lengths and re-read through a fresh handle; bitwise equality with the NumPy reference. Sampling evidence, not proof; the statement quantifies over inputs only, so the simulator contributes generation, restart and knob variation.',
              note='trusts NumPy (np.asarray/astype/np.full) as reference semantics and tmpfs as the disk', ref='5 C01, 6'),
  'C02': dict(cat='exploration', tech=TECH + '; independent format decoder as peer reader after every step',
-             text='Array histories (append, iterappend, assignment, truncate, metadata, overwrite re-creation, restart); after every completed step a decoder that shares no code with Darr reconstructs the array from the three files and must agree bit for bit with the model and with the live and a fresh handle; size equation and the six keys checked.',
+             text='Array histories (append, iterappend, assignment, truncate, metadata, overwrite re-creation, restart); after every completed step a decoder that shares no code with Darr reconstructs the array from the three files and must agree bit for bit (dtype, shape, element bits) with what the live and a fresh handle report; size equation and the six keys checked. A call whose acceptance differs from the reference model ends the history (the subject of C03) after the decoder has looked at what it left.',
              note='decoder implements the documented format from its own 13x2 type table; trusts NumPy frombuffer', ref='5 C02'),
  'C03': dict(cat='exploration', tech=TECH,
              text='Seeded op lists over append/iterappend/setitem/truncate/mode/restart incl. rejected variants from empty and non-empty 1-3-D starts in all 26 dtype/byte-order cells; model equality on live and fresh handle after every step, prefix-byte invariants on the raw file, rejected calls leave the state unchanged.',
              note='NumPy concatenate/assignment/slicing as reference semantics', ref='5 C03'),
  'C04': dict(cat='exploration', tech=TECH,
-             text='Seeded ragged histories (create_raggedarray/asraggedarray, append, iterappend, truncate, mode, restart, bad items, bad indices, iter_arrays); every subarray index in [-len-1, len] read on live and fresh handle after every step against a list-of-ndarrays model; stored index type checked.',
+             text='Seeded ragged histories (create_raggedarray/asraggedarray, append, iterappend, truncate, mode, restart, bad indices, iter_arrays over any start/end/step - where the range and the list-slicing reading differ either is accepted); every subarray index in [-len-1, len] read on live and fresh handle after every step against a list-of-ndarrays model; stored index type checked.',
              note='np.asarray(item, dtype) as item semantics; bool indices not generated', ref='5 C04'),
  'C05': dict(cat='exploration', tech=TECH + '; independent ragged decoder as peer reader after every step',
-             text='The C04 histories; after every completed step an independent decoder checks both sub-arrays (C02 sense), the index invariants (first start 0, contiguous, start<=end, last end = N), recomputes every subarray from values[start:end] and checks the top-level descriptor (len, size, atom, numtype, darrobject).',
+             text='The C04 histories; after every completed step an independent decoder checks both sub-arrays (C02 sense), the index invariants (first start 0, contiguous, start<=end, last end = N), recomputes every subarray from values[start:end], compares it with what a fresh handle reports, and checks the top-level descriptor (len, size, atom, numtype, darrobject).',
              note='decoder shares no code with Darr', ref='5 C05'),
  'C08': dict(cat='exploration', tech=TECH + '; differential README regeneration on a copy',
-             text='Array and ragged histories with metadata creation/deletion and overwrite re-creation, biased to cross 5/6/7 subarrays; after every step each README (array, ragged, values, indices) must be byte-identical to what Darr regenerates from a fresh handle on a copy of the directory, must contain every offered readcode() snippet, the dimensions/length, the subarray count and listing, and mention metadata.json iff metadata exist.',
+             text='Array and ragged histories with metadata creation/deletion and overwrite re-creation, biased to cross 5/6/7 subarrays; after every step each README (array, ragged, values, indices) must be byte-identical to what Darr regenerates from a fresh handle on a copy of the directory, must contain every offered readcode() snippet, the dimensions/length and the subarray count, every listed subarray must exist with its current length, and metadata.json is mentioned iff metadata exist.',
              note='uses the private _update_readmetxt of a fresh handle on a copy as the regeneration entry point (absence = HARNESS-ERROR)', ref='5 C08'),
  'C09': dict(cat='fault_enumeration', tech=TECH + '; kernel RLIMIT_FSIZE write refusal at byte offsets, ENOSPC seam on the n-th tofile, failing iterables',
-             text='Start state from a seeded prefix history (incl. empty by creation and by truncation), then one append/iterappend of 0-6 chunks under one sampled fault: iterable raises an Exception or a non-Exception BaseException / yields a chunk of bad shape, bad rank (also without elements) or unconvertible type at position k; RLIMIT_FSIZE at chunk boundary +-1, mid element, mid row (through the real numpy tofile + stdio path); ENOSPC after b bytes of the n-th tofile; fault-free control. Oracle: raised, opens, decodes, equals original ++ completed chunks, live = fresh.',
+             text='Start state from a seeded prefix history (incl. empty by creation and by truncation), then one append/iterappend of 0-6 chunks under one sampled fault: iterable raises an Exception or a non-Exception BaseException / yields a chunk of bad shape, bad rank (also without elements) or unconvertible type at position k; RLIMIT_FSIZE at chunk boundary +-1, mid element, mid row (through the real numpy tofile + stdio path); ENOSPC after b bytes of the n-th tofile; fault-free control. Oracle: raised, opens, decodes, equals original ++ completed chunks, live = fresh (a fault-free call that raises must leave some whole-chunk prefix).',
              note='fault positions are sampled, not enumerated exhaustively; RLIMIT_FSIZE is process-wide so the data file is made the only file above the limit', ref='5 C09'),
  'C10': dict(cat='fault_enumeration', tech=TECH + '; kernel RLIMIT_FSIZE aimed at values or indices file, ENOSPC seam per file, index overflow, failing iterables',
              text='As C09 for RaggedArray.append/iterappend: iterable faults, index overflow with int8/uint8/int16 index types, RLIMIT_FSIZE aimed at the values file or (1100+ one-byte subarrays) at the indices file, ENOSPC on the n-th values write or n-th index-row write; control batch. Oracle: raised, opens, independent ragged decoder accepts, subarrays = original ++ completely appended, live = fresh.',
              note='as C09', ref='5 C10'),
  'C11': dict(cat='exploration', tech=TECH + '; mode-switch histories with byte snapshots',
-             text="Array and RaggedArray histories with a mode dimension ('r' by default open, at creation, by assignment after switches); in every 'r' state each mutating entry point (setitem, append, iterappend, truncate, delete, metadata update/setitem/pop/popitem/del) is fired: must raise (unless a genuine no-op) and leave the directory byte-identical; the same record must then succeed in 'r+' and match the model.",
+             text="Array and RaggedArray histories with a mode dimension ('r' by default open, at creation, by assignment after switches); in every 'r' state each mutating entry point (setitem, append, iterappend, truncate, delete, metadata update/setitem/pop/popitem/del) is fired: must raise (unless a genuine no-op) and leave the directory byte-identical; a call that had to be refused must then succeed in 'r+' and match the model.",
              note='byte snapshot of the whole array directory; delete ends the run', ref='5 C11'),
  'C13': dict(cat='exploration', tech=TECH,
-             text='Metadata histories on Array and RaggedArray from the starts {no file, metadata at creation, empty dict at creation}: setitem, update (dict/kwargs/empty/non-serialisable), pop with and without default, popitem, del, restart; every read accessor on live and fresh handle equals the JSON round-trip of a model dict; file exists iff non-empty; exception classes as stated.',
+             text='Metadata histories on Array and RaggedArray from the starts {no file, metadata at creation, empty dict at creation}: setitem, update (dict/kwargs/empty/non-serialisable; bytes may be stored as text or refused), pop with and without default, popitem, del, restart; every read accessor on live and fresh handle equals the JSON round-trip of a model dict; file exists iff non-empty; exception classes as stated; refused and no-op calls leave metadata.json unchanged in meaning and every other file byte-identical.',
              note='own JSON normaliser; NaN compared NaN-aware', ref='5 C13'),
  'C06': dict(cat='exploration', tech=TECH.replace('op/fault sequences', 'array states') + '; emitted snippets as reader peers: CPython exec (L1) and stub interpreters (L2)',
              text='Runs 0-311 enumerate 26 dtype cells x rank 1-4 x 3 path modes against all 12 languages; further runs add length-1 axes, 0-row arrays and arrays reached by append/truncate. numpy/numpymemmap/python/darr snippets are really executed in the requested path mode and compared bit for bit; the other 8 languages are interpreted by stub interpreters and compared exactly after widening; offer/withhold is checked against the tables parsed from docs/readcode.rst; a byte snapshot shows that running code changes no file (also for empty arrays).',
@@ -46,28 +46,28 @@ P = {
              text='One ragged array per run over value dtype x index type x atom rank 0-3 x subarray counts/lengths incl. 0 (and arrays without values), optionally after append/truncate; numpymemmap and darr snippets executed for real for every k plus the example statement; the 7 other languages interpreted by stubs for every k under their index origin, end inclusiveness and axis order; example must bind the stated existing subarray; withholding checked against the docs tables with the R int64-index allowance; running code changes no file.',
              note='as C06', ref='5 C07, App. B'),
  'C12': dict(cat='exploration', tech=TECH + '; hold list re-verified after every later operation; fork per run so death by signal is observed',
-             text='Index expressions from a grammar (ints, slices with steps, Ellipsis, None, tuples, integer arrays, boolean masks incl. wrong length, non-index objects) read and assigned inside/outside open_array() contexts on rank 1-4 arrays incl. 0-row and multi-MB ones; results equal NumPy on the model or raise the same class; NumPy integer scalars as indices; open_array(accessmode=r+) on a read-only object; an invalid access mode refused without leaving anything open; iterations left early; every returned value is held and re-verified after every later append/assignment/truncate/delete; assignments are visible to a fresh handle and in the raw file; no descriptor or map is left open after any operation.',
+             text='Index expressions from a grammar (ints, slices with steps, Ellipsis, None, tuples, integer arrays, boolean masks incl. wrong length, non-index objects) read and assigned inside/outside open_array() contexts on rank 1-4 arrays incl. 0-row and multi-MB ones; results equal NumPy on the model or raise the same class; NumPy integer scalars as indices; open_array(accessmode=r+) on a read-only object; an invalid access mode leaves nothing open whether refused or not; iterations left early; every returned value is held and re-verified after every later append/assignment/truncate/delete; assignments are visible to a fresh handle and in the raw file; no descriptor or map is left open after any operation.',
              note='NumPy indexing on an in-memory copy as reference; /proc/self/fd and /proc/self/maps as leak oracle', ref='5 C12'),
  'C14': dict(cat='exploration', tech='saturating enumeration of the small frame-parameter space plus seeded single-generator schedules with interleaved writes (partly degenerate: the arithmetic clauses are a pure function)',
-             text='Runs 0-13 enumerate every (chunklen, stepsize, start, end, remainder) for n<=12 for iterindices (and a slice of it for iterchunks) and fit_frames for totallen<=16 against a reference written from the statement; further runs: one iterchunks generator with writes between next() calls, early close/abandon, held chunks re-verified, leak check; invalid parameter combinations and floats must raise ValueError; large values.',
+             text='Runs 0-13 enumerate every (chunklen, stepsize, start, end, remainder) for n<=12 for iterindices (and a slice of it for iterchunks) and fit_frames for totallen<=16 against a reference written from the statement; further runs: one iterchunks generator with writes between next() calls, early close/abandon, held chunks re-verified (leaks and element reads are probes here, verdicts in C12/C19); invalid parameter combinations must raise ValueError (non-integral floats are called, not judged); large values.',
              note='frames reference is a 6-line loop derived from the statement, independent of fit_frames', ref='5 C14'),
  'C15': dict(cat='exploration', tech=TECH + '; two directories per run with independence snapshots',
              text='Source from a prefix history (Array incl. 0 rows, RaggedArray incl. no subarrays, nested metadata), copy(dtype in {None, 26 cells}, chunklen, accessmode), then mutations on either side (append, setitem, truncate, metadata, delete) with a byte snapshot of the other side before/after and both sides checked against their own models; archive() for xz/gz/bz2 is extracted with tarfile and compared byte for byte, existing archives are refused unless overwrite, unknown compression type raises and writes nothing.',
              note='astype on exactly representable values as cast reference; mode bits of extracted files not compared', ref='5 C15'),
  'C16': dict(cat='exploration', tech=TECH + '; environment faults: foreign files/dirs/symlinks planted by the simulator',
-             text='Target path occupied by Array(+metadata), larger Array, RaggedArray, plain dir, plain file or nothing; 0-3 foreign entries (file, nested dir, symlink to file/dir outside, directory named metadata.json, hidden file, empty dir) at top/values/indices; one of delete_array, delete_raggedarray (object/str/Path, right and wrong kind, also through a stale object whose path was deleted and reused) or the seven creating calls x overwrite (their source may fail part-way); byte snapshot of the parent directory: foreign entries always survive, wrong kind -> TypeError and nothing changed, overwrite=False -> raise and nothing changed, complete delete leaves nothing.',
+             text='Target path occupied by Array(+metadata), larger Array, RaggedArray, plain dir, plain file or nothing; 0-3 foreign entries (file, nested dir, symlink to file/dir outside, directory named metadata.json, hidden file, empty dir) at top/values/indices; one of delete_array, delete_raggedarray (object/str/Path, right and wrong kind, also through a stale object whose path was deleted and reused) or the seven creating calls x overwrite x metadata {None, {}, dict} (their source may fail part-way); after a successful overwrite=True the Darr-owned files equal those of the same call on a free path (no stale metadata.json); byte snapshot of the parent directory: foreign entries always survive, wrong kind -> TypeError and nothing changed, overwrite=False -> raise and nothing changed, complete delete leaves nothing.',
              note='snapshot of the parent covers symlink targets; unlink order inside delete_* (set iteration) does not influence verdicts', ref='5 C16'),
  'C17': dict(cat='fault_enumeration', tech=TECH + '; crash points at every executed source line of Darr (sys.settrace) with materialised post-crash directories, plus synthesised torn writes',
              text='One mutating op (append, iterappend of 1-4 chunks, iterappend with failing iterable, truncate, metadata set/update/pop/del; Array and RaggedArray; empty and non-empty starts) runs under a line tracer; every distinct on-disk state between two executed lines is copied (= what SIGKILL there leaves), and for every single-file transition torn variants are synthesised (zero length, half of the appended tail aligned and mid-element, prefixes of rewritten text, and new-prefix + old-tail mixtures for files that an audit hook saw opened for writing without O_TRUNC; none for files replaced by rename); each directory is opened by a fresh handle and must raise or show pre-state, post-state or pre-state plus a whole number of chunks/subarrays.',
              note='crash points are exhaustive for the traced execution at line granularity; scenarios are sampled; power-loss reordering across files is not modelled', ref='5 C17'),
  'C18': dict(cat='fault_enumeration', tech=TECH + '; stored-state corruption of descriptor fields and data-file length',
-             text='Valid directory from a short history (1-D, N-D, 0-row, ragged sub-arrays and top level), then one corruption from the listed classes (descriptor missing / not JSON / not a dict / required key removed / unknown numtype, byteorder, arrayorder tokens incl. wrong case, near misses, other JSON types / invalid shapes / data length off by -all..+k incl. non-multiples and 0-row arrays / numtype of another item size); Array(), RaggedArray(), darr.open() must raise; delete/truncate by path must raise TypeError and change nothing.',
+             text='Valid directory from a short history (1-D, N-D, 0-row, ragged sub-arrays and top level), then one corruption from the listed classes (descriptor missing / not JSON / not a dict / required key removed / unknown numtype, byteorder, arrayorder tokens (near misses, foreign words, types outside the 13, other JSON types; no aliases that NumPy or a case-insensitive reader would resolve to a documented value) / invalid shapes / data length off by -all..+k incl. non-multiples and 0-row arrays / numtype of another item size); Array(), RaggedArray(), darr.open() must raise; delete/truncate by path must raise TypeError and change nothing.',
              note='only the invalid classes the statement lists are generated; consistent alternative descriptions are not', ref='5 C18'),
  'C19': dict(cat='exploration', tech=TECH.replace('op/fault sequences', 'schedules') + ': seeded interleavings of generator and context actors on one shared memory map, one forked child per schedule',
              text='Up to three iterchunks generators with different chunk parameters and two nested open_array() contexts on one 4-8 MB Array; the seeded schedule starts, advances, closes and abandons generators, enters and exits contexts (actors may ask for different access modes; 30 % of runs use a read-only handle), reads and writes elements, injects a failing open of the data file, then finishes the survivors in a seeded order; oracle: child exits normally (death by signal is a violation), every chunk/element equals the model at that moment, held chunks stay valid, every write is in a fresh handle and the raw file, no descriptor/map remains.',
              note='schedules are sampled (length <= 14 + finishing order), not enumerated; ownership patterns reached are reported', ref='5 C19'),
  'C20': dict(cat='exploration', tech=TECH + '; name spelling as the varied dimension (degenerate part) over call histories',
-             text='Histories of DataDir calls on Array/RaggedArray: attempts on each protected name (ragged: values, indices and paths below them) through write_txt, write_jsonfile, write_jsondict, update_jsondict, delete_files and open_file in 9 writing modes under 10 spellings (the array itself held through an absolute or a relative path) must raise OSError and leave the parent directory byte-identical; user files round-trip (json, txt), honour overwrite, and delete_files removes exactly the named files.',
+             text='Histories of DataDir calls on Array/RaggedArray: attempts on each protected name (ragged: values, indices and paths below them) through write_txt, write_jsonfile, write_jsondict, update_jsondict, delete_files and open_file in 9 writing modes under 10 spellings (the array itself held through an absolute or a relative path) must raise OSError and leave the parent directory byte-identical; for user names write_txt/read_txt and write_jsondict/read_jsondict round-trip and honour overwrite, delete_files removes exactly the named files, and no call on a user name changes a file of the array (write_jsonfile, update_jsondict and open_file on user names are made but only that is judged).',
              note="PYTHONUTF8=1 so that read_txt does not depend on the locale; texts containing '\\r' are not generated (universal-newline translation on read)", ref='5 C20'),
 }
 
